@@ -77,6 +77,20 @@ theorem C11_strings_needs_contiguous :
   have : k = 0 ∨ k = 1 := by omega
   rcases this with rfl | rfl <;> decide
 
+/-- audit 6, the excluded regions of the string theorems are refusals or format limits: fewer than two strings → ValueError, a
+later string shorter than the first → IndexError (longer ones are cut). -/
+theorem C11_strings_rejects (s s' : List Char) (rest : List (List Char)) :
+    traceFromStrings [] = .error .valueError ∧ traceFromStrings [s] = .error .valueError ∧
+    (s'.length < s.length → traceFromStrings (s :: s' :: rest) = .error .indexError) := by
+  refine ⟨rfl, rfl, fun h => ?_⟩
+  simp [traceFromStrings, h]
+
+/-- …and the hypothesis "no symbol is the gap character" is necessary: an alphabet that contains `-` renders a symbol and a
+gap alike (witness replayed on the code: rows `a-b` / `a-b` parse back with an all-gap column). -/
+theorem C11_strings_needs_no_gap_symbol :
+    (gappedStrings [['a', '-', 'b'], ['a', 'b']] [[some 0, some 0], [some 1, none], [some 2, some 1]]).toOption.bind
+        (fun strs => (traceFromStrings strs).toOption) = some [[some 0, some 0], [none, none], [some 1, some 1]] := by decide
+
 /-- FASTA round trip of the whole alignment (`set_alignment` then `get_alignment` with **any** set `extra` of additional gap
 characters): a trace that covers every sequence completely comes back unchanged together with the sequences, provided no
 symbol is `-` or one of the additional gap characters. -/
@@ -400,14 +414,28 @@ theorem C11_msa_tree_not_validated_defect :
     (progressive exAl0 4 [[0, 1], [0, 1], [1, 1]] (.node (.leaf 0) (.node (.leaf 1) (.leaf 1)))).toOption.map (fun p => p.1)
       = some [0, 1, 1] := by decide
 
+/-- audit 6, known finding `C11/msa/gap-code-overflows-code-dtype` (multiple.pyx): `C11_msa_rows` needs the code that is
+*written* for a gap to be the code that is *stripped* afterwards.  For an alphabet of exactly 256 symbols the gap code 256 is
+stored in a uint8 array as `256 % 256 = 0` but compared as 256: the stored row keeps a spurious symbol 0 and no longer spells
+the input (255 and 257 symbols are fine). -/
+theorem C11_msa_gapcode_wrap_defect :
+    replaceGaps (256 % 256) [some 0, none, some 1] [1, 2] = .ok [1, 0, 2] ∧ strip 256 [1, 0, 2] ≠ strip 256 [1, 2] := by decide
+
 /-- The distance `−ln((S − S_rand)/(S_max − S_rand))` on the exact (integer-scaled) model: the code's outcome in the order of
 its tests, and the formula has a value iff `S_max ≠ S_rand` and numerator and denominator have the same strict sign — for
 `S ≤ S_max` iff `S > S_rand`; the code returns a distance exactly then (when `S ≥ S_rand`). -/
 theorem C11_distance_defined (d : DistIn) :
     ((distOutcome d = .belowRandom ↔ d.num < 0) ∧ (distOutcome d = .zeroDivision ↔ 0 ≤ d.num ∧ d.den = 0) ∧
-     (distOutcome d = .infinite ↔ d.num = 0 ∧ d.den ≠ 0) ∧ (distOutcome d = .finite ↔ 0 < d.num ∧ 0 < d.den)) ∧
+     (distOutcome d = .infinite ↔ d.num = 0 ∧ d.den ≠ 0) ∧ (distOutcome d = .notANumber ↔ 0 < d.num ∧ d.den < 0) ∧
+     (distOutcome d = .negative ↔ 0 < d.den ∧ d.den < d.num) ∧ (distOutcome d = .finite ↔ 0 < d.num ∧ d.num ≤ d.den)) ∧
     (d.num ≤ d.den → (DistDefined d ↔ (0 < d.num ∨ d.den < 0)) ∧ (0 ≤ d.num → (DistDefined d ↔ distOutcome d = .finite))) :=
   ⟨distOutcome_spec d, distDefined_iff d⟩
+
+/-- audit 6, the excluded region `S > S_max` (a matrix whose mismatches outscore matches): the distance would be negative or
+not a number; `upgma` refuses exactly these ("Distances must be positive" / "must be symmetric" for nan) — never a tree. -/
+theorem C11_distance_rejects_beyond_max (d : DistIn) (h : d.den < d.num) (h0 : 0 < d.num) :
+    distOutcome d ≠ .finite ∧ (0 < d.den → distOutcome d = .negative) ∧ (d.den < 0 → distOutcome d = .notANumber) :=
+  dist_rejects_beyond_max d h h0
 
 /-- known finding `C11/msa/distances/ZeroDivisionError`: two identical homopolymers (`'A','A'` and `'AAAA','AAAA'` with the
 standard nucleotide matrix, match 5) have `S = S_max = S_rand`: the ratio is 0/0. -/
